@@ -1,3 +1,9 @@
-PROP = {"engines": [("list", "default")],
-        "level_text": "TODO",
-        "assumptions": []}
+PROP = {"engines": [("list", "default"), ("slist", "default")],
+        "level_text": "Theorems C04_list_* / C04_slist_* (Coq): on an explicit node-heap model of cc_list.c / cc_slist.c (every dereference checked, every node one ledger block) "
+                      "the well-formedness invariant is preserved by every operation and every operation of the property (insert/remove/replace/get/index_of/contains/to_array/foreach/"
+                      "reverse/filter_mut/add_all/add_all_at/splice/splice_at) returns exactly the status, out-values and contents of the ideal pair of sequences, for all histories "
+                      "from the constructor; backward traversal = mirror image (list). The model is run against the compiled code (ASan/UBSan) on all operand sizes 0-4 x positions, "
+                      "all short histories, iterator programs, sort traces, fault plans and random long histories; range guards are regenerated from the C source on every run.",
+        "assumptions": ["both lists of a trace use the same allocator family (add_all/splice hand nodes of the source's family to the destination; mixed families end in a cross-family free, reproduced by model and code)",
+                        "size < 2^64 (size++ is modelled without wrap-around)",
+                        "comparators, predicates and copy functions are pure functions"]}
